@@ -28,7 +28,10 @@ Inductive case :=
 | CEvolve (dyn : bool)                 (* timesteps = (lambda ca, t: t < T) instead of T *)
           (scale : Z) (dt : dtype)      (* dtype of the automaton passed in *)
           (hist : list (list Z)) (T r : nat) (sp : rule_spec)
-          (obs : res observation).
+          (obs : res observation)
+(* cases outside the Z-valued model (float overflow to inf, signed zeros): decided by the Python oracle
+   against an independent reference ring update; they agree trivially here *)
+| CNoModel.
 
 Definition model_run (dyn : bool) (scale : Z) (hist : list (list Z)) (T r : nat) (sp : rule_spec)
   : res (list (list Z) * list call1) :=
@@ -52,6 +55,7 @@ Definition model_out (c : case) : res (list (list Z) * list call1 * dtype * list
       | Ok (out, lg) => Ok (out, lg, dt, hist)
       | Raise e => Raise e
       end
+  | CNoModel => Ok ([], [], DOther, [])
   end.
 
 Definition call_eqb (a b : call1) : bool :=
@@ -72,4 +76,5 @@ Definition check_case (c : case) : bool :=
       | Raise _, Raise _ => true
       | _, _ => false
       end
+  | CNoModel => true
   end.
